@@ -159,6 +159,16 @@ CHECKS = {
         note="Clean domain: without a usable discriminator every object variant has a distinguishing required field and at most one non-object variant is present; unions nested inside unions are not generated.",
         design="§5 C14",
     ),
+    "C15": dict(
+        category="exploration",
+        technique="complete position x payload matrix (25 text-bearing positions of a template document x 40 hostile payloads: quotes, triple quotes, backslash sequences, every Unicode line separator, NUL, bidi/astral characters, expression-injection strings) plus Hypothesis text() payloads, through generate_client; oracle = every emitted file parses, the AST skeleton (literals, docstrings and position-derived identifiers masked) equals the benign-payload baseline as a multiset, and semantic literals (enum values, wire names, mapping keys, defaults) evaluate/are sent as exactly the spec string",
+        text="1 000 matrix cases + 200 random-text cases per quick run; the matrix is complete for the listed positions and payloads. "
+             "A payload may only change string constants, comments and (for name positions) the derived identifiers; the request observed "
+             "at a mock transport must carry the raw parameter name. 6 root causes were found and repaired in one fix commit "
+             "(unescaped string literals, docstrings closed by triple quotes, comments ended by CR/U+2028, NUL, surrogate-pair defaults).",
+        note="One template document; a position not in the list (e.g. server URLs, example values, externalDocs) is not exercised. A visible rejection of a hostile name is accepted. Wording of docstrings/comments is not asserted.",
+        design="§5 C15",
+    ),
     "C16": dict(
         category="exploration",
         technique="Hypothesis-built dataclass type trees (make_dataclass, random bijective Meta key maps) x conforming JSON; round-trip laws both directions, differential against a fresh copy of the module (history independence), corrupted-leaf error reporting, serialiser on generated instance graphs (chain/self-loop/ring/diamond/random; two annotation styles) against an independent reference",
